@@ -56,7 +56,7 @@ CHECKS = {
          "At most one benign fault per run; servers use a simple honest in-memory store; in the schedule part a network round trip is atomic within the requesting thread's step.", "2.4 C18"),
  "C03": ("E1-syncx", "model_checking",
          "explicit-state BFS over environment event histories (gossip deliveries, Head() calls, held getter answers, clock advances) on the real Syncer + real Store, oracle in every state; plus stateless DFS over thread schedules of the instrumented sync package with preemption bounding",
-         "Event alphabet: deliver {next, skip 2/3, duplicate, stale, forged adjacent, forged far (bifurcation), bad link, wrong chain, future-dated}, Head(), answer of the held getter call {full, prefix, error}, advance {40s, 2h}; depth 4 quick / 6 thorough over trust ranges {unlimited, 2, (1)} and batch sizes; plus a lagging-peers pass (depth 6 / 8) where a held trusted-head request is answered with a soft-failing honest or forged header while gossip runs ahead; in every state: every stored header (datastore scan + pending) is the verified chain's header, the store is one run Tail..Head, every invalid delivery returned an error, no unverified header is pending / the sync target / the origin of a range request. Schedule part (engine E2 on the sync package): all schedules with <= 1 preemption (thorough <= 2) of concurrent gossip handler threads and the sync loop (target vs duplicate vs stale; three heads in any order; two pending ranges handed to an asynchronous store while a head is appended to the last one; thorough: forged vs honest target); only chain headers stored in one run, every accepted head synced.",
+         "Event alphabet: deliver {next, skip 2/3, duplicate, stale, forged adjacent, forged far (bifurcation), bad link, wrong chain, future-dated}, Head(), answer of the held getter call {full, prefix, error}, advance {40s, 2h}; depth 4 quick / 6 thorough over trust ranges {unlimited, 2, (1)} and batch sizes; plus a lagging-peers pass (depth 6 / 8) where a held trusted-head request is answered with a soft-failing honest or forged header while gossip runs ahead; in every state: every stored header (datastore scan + pending) is the verified chain's header, the store is one run Tail..Head, every invalid delivery returned an error, no unverified header is pending / the sync target / the origin of a range request. Schedule part (engine E2 on the sync package): all schedules with <= 1 preemption (thorough <= 2) of concurrent gossip handler threads and the sync loop (target vs duplicate vs stale; three heads in any order; two pending ranges handed to an asynchronous store while a head is appended to the last one; two overlapping Head() callers on a stale head whose shared request is answered with a forged far header and a soft failure: no caller returns or promotes it; thorough: forged vs honest target); only chain headers stored in one run, every accepted head synced.",
          "Event granularity (bubble quiescence between events); while a delivery is parked in bifurcation no second delivery is issued (sync.Mutex blocking is invisible to synctest); zero headers are not delivered (the Subscriber never produces them).", "2.3 C03"),
  "C07": ("E1-syncx", "model_checking",
          "explicit-state BFS over event histories with an honest held getter on the real Syncer + Store; quiescent-state oracle plus a recovery probe from every quiescent state; plus stateless DFS over thread schedules of the instrumented sync package with preemption bounding",
@@ -64,7 +64,7 @@ CHECKS = {
          "Event granularity; liveness is evaluated at bubble quiescence in virtual time.", "2.3 C07"),
  "C15": ("E1-syncx", "model_checking",
          "exhaustive enumeration of (distance, trust range, candidate kind, failing fetch position) on the real gossip verifier with a real store",
-         "Subjective head in {1,5}, distance 2..12 (thorough 24), trust range 1..d and unlimited, honest or forged candidate, and for each the failure of every single intermediate fetch the fault-free run performs, as a generic error or ErrNotFound, once or for every fetch from that one on, and after a one-off failure the same candidate is delivered again; accept iff honest and no needed fetch failed, refusal leaves the candidate neither pending nor stored, only chain headers are promoted, fetch count bounded by d*(floor(log2 d)+1).",
+         "Subjective head in {1,5}, distance 2..12 (thorough 24), trust range 1..d and unlimited, honest or forged candidate, and for each the failure of every single intermediate fetch the fault-free run performs, as a generic error or ErrNotFound, once or for every fetch from that one on, and after a one-off failure the same candidate is delivered again; accept iff honest and no needed fetch failed, refusal leaves the candidate neither pending nor stored, only chain headers are promoted, fetch count bounded by d*(floor(log2 d)+1); plus a header type that reports a soft failure for the header adjacent to the subjective head (d = 1..6, trust range {1, 2, unlimited}): the search terminates within the bound and the candidate is refused.",
          "Getter honest apart from injected fetch errors.", "2.3 C15"),
  "C16": ("E1-syncx", "model_checking",
          "exhaustive enumeration of the Validate-accepted parameter product x chain shapes x stores x reconfiguration pairs through the Syncer's public API",
